@@ -65,7 +65,7 @@ fn gen_tree(rng: &mut Rng, tier: Tier) -> Tree {
     o.crlf = false;
     let lib = libgen::gen_lib(rng, &o).texts;
     // re-home the notes under directories / names with spaces and unicode
-    let dirs = ["", "sub dir/", "d1/e1/", "ünï/"];
+    let dirs = ["", "sub dir/", "d1/e1/", "ünï/", "rel-1.0/", "2024.01/w.x/"];
     let mut texts: BTreeMap<String, String> = BTreeMap::new();
     let mut rename: BTreeMap<String, String> = BTreeMap::new();
     for (i, k) in lib.keys().enumerate() {
